@@ -114,3 +114,20 @@ pub fn subsets(n: usize) -> impl Iterator<Item = Vec<usize>> {
 /// carriage return, space, quote, backslash, DEL, 0x80, 0xff. Values whose ENCODING ends (or
 /// starts) with one of these are searched for and used as edge samples.
 pub const SPECIAL_BYTES: [u8; 9] = [0x00, 0x0a, 0x0d, 0x20, 0x22, 0x5c, 0x7f, 0x80, 0xff];
+
+/// 32-byte big-endian strings around the group order: encodings of zero (0, r, 2r), of small
+/// values (1, r+1), the largest canonical value (r-1), and large non-canonical values.
+pub fn special_scalar_encodings() -> Vec<(&'static str, [u8; 32])> {
+    let h = |s: &str| -> [u8; 32] { hex::decode(s).unwrap().try_into().unwrap() };
+    vec![
+        ("0", [0u8; 32]),
+        ("1", h("0000000000000000000000000000000000000000000000000000000000000001")),
+        ("r-1", h("73eda753299d7d483339d80809a1d80553bda402fffe5bfeffffffff00000000")),
+        ("r", h("73eda753299d7d483339d80809a1d80553bda402fffe5bfeffffffff00000001")),
+        ("r+1", h("73eda753299d7d483339d80809a1d80553bda402fffe5bfeffffffff00000002")),
+        ("2r", h("e7db4ea6533afa906673b0101343b00aa77b4805fffcb7fdfffffffe00000002")),
+        ("2r+1", h("e7db4ea6533afa906673b0101343b00aa77b4805fffcb7fdfffffffe00000003")),
+        ("2^255", h("8000000000000000000000000000000000000000000000000000000000000000")),
+        ("2^256-1", [0xffu8; 32]),
+    ]
+}
